@@ -125,6 +125,9 @@ impl<F: Field> PolynomialCoeffs<F> {
             if b.len() > l {
                 b.coeffs.drain(l..);
             }
+            // `b` holds coefficients `l..2l` of the inverse; keep the block aligned when its top
+            // coefficients are zero (they were removed by `trim`).
+            b.coeffs.resize(l, F::ZERO);
             a.coeffs.extend_from_slice(&b.coeffs);
         }
         a.coeffs.drain(n..);
